@@ -142,6 +142,11 @@ func c04Values(types []*pt.Type) []c04Value {
 		c04Value{"litvar-comp:[a []]", []pt.Stmt{a}, pt.A(pt.V("a"), pt.A())}, c04Value{"litvar-comp:[[] a]", []pt.Stmt{a}, pt.A(pt.A(), pt.V("a"))},
 		c04Value{"litvar-comp:{p:mm q:{}}", []pt.Stmt{mm}, pt.M("p", pt.V("mm"), "q", pt.M())}, c04Value{"litvar-comp:{p:{} q:mm}", []pt.Stmt{mm}, pt.M("p", pt.M(), "q", pt.V("mm"))},
 		c04Value{"litvar-comp:{k:[mm {}]}", []pt.Stmt{mm}, pt.M("k", pt.A(pt.V("mm"), pt.M()))},
+		// a variable two levels down, next to an all-literal element of the same type, in both orders (a literal that contains a
+		// variable of composite type anywhere is not convertible at that place)
+		c04Value{"litvar-deep:[[[1]] [a]]", []pt.Stmt{a}, pt.A(pt.A(pt.A(pt.N(1))), pt.A(pt.V("a")))}, c04Value{"litvar-deep:[[a] [[1]]]", []pt.Stmt{a}, pt.A(pt.A(pt.V("a")), pt.A(pt.A(pt.N(1))))},
+		c04Value{"litvar-deep:{p:[[1]] q:[a]}", []pt.Stmt{a}, pt.M("p", pt.A(pt.A(pt.N(1))), "q", pt.A(pt.V("a")))}, c04Value{"litvar-deep:[{k:[1]} {k:a}]", []pt.Stmt{a}, pt.A(pt.M("k", pt.A(pt.N(1))), pt.M("k", pt.V("a")))},
+		c04Value{"litvar-deep:[[[1]] [[2]] [a]]", []pt.Stmt{a}, pt.A(pt.A(pt.A(pt.N(1))), pt.A(pt.A(pt.N(2))), pt.A(pt.V("a")))},
 		c04Value{"constexpr:[1]+[2]", nil, pt.Bin("+", pt.A(pt.N(1)), pt.A(pt.N(2)))}, c04Value{"constexpr:([1])", nil, pt.Group{X: pt.A(pt.N(1))}},
 		c04Value{"constexpr:[1][:]", nil, pt.Slice{X: pt.A(pt.N(1))}}, c04Value{"constexpr:[1]*2", nil, pt.Bin("*", pt.A(pt.N(1)), pt.N(2))},
 		c04Value{"constexpr:[[1]][0]", nil, pt.Index{X: pt.A(pt.A(pt.N(1))), I: pt.N(0)}}, c04Value{"constexpr:{a:[1]}.a", nil, pt.Dot{X: pt.M("a", pt.A(pt.N(1))), Key: "a"}},
@@ -157,6 +162,16 @@ func c04Values(types []*pt.Type) []c04Value {
 	return vs
 }
 
+// c04AnyDepth is the nesting level at which t has any (0: t is any; 99: no any at all).
+func c04AnyDepth(t *pt.Type) int {
+	for d := 0; t != nil; d, t = d+1, t.Sub {
+		if t.K == pt.Any {
+			return d
+		}
+	}
+	return 99
+}
+
 func runC04(w *fw.Worker) {
 	depth := 3
 	if !w.Quick() {
@@ -164,7 +179,9 @@ func runC04(w *fw.Worker) {
 	}
 	types := c04Types(depth)
 	values := c04Values(types)
+	var curT *pt.Type // the target type of the binding-site cases being emitted
 	emit := func(sub, cell string, nontrivial bool, stmts ...pt.Stmt) {
+		target := curT
 		prog := &pt.Prog{Stmts: stmts}
 		src := pt.Source(prog)
 		w.Case(src, func() *fw.Violation {
@@ -177,6 +194,12 @@ func runC04(w *fw.Worker) {
 					// one narrow class: a composite literal whose only non-constant leaves are basic-typed
 					// variables is converted to an any-based composite although the specification calls it a variable
 					v.Signature = "spec-rejects-parser-accepts:literal-with-basic-variable-converts"
+				} else if cell == "litvar-deep" && len(v.Signature) > 27 && v.Signature[:27] == "spec-rejects-parser-accepts" && c04AnyDepth(target) <= 2 {
+					// a second narrow class: the variable sits two levels down and the target has any at level 1 or 2, so the
+					// variable's value (or the literal directly around it) is stored in an any as it is - sound at run time, but the
+					// specification calls such a literal a variable. A target with any only further down ([][][]any) would need the
+					// variable itself converted and keeps the general signature.
+					v.Signature = "spec-rejects-parser-accepts:literal-with-variable-below-top-level-converts"
 				} else {
 					v.Signature += ":" + cell
 				}
@@ -199,6 +222,7 @@ func runC04(w *fw.Worker) {
 		if w.Expired() {
 			return
 		}
+		curT = T
 		for _, val := range values {
 			cell := val.name
 			if i := indexByte(cell, ':'); i > 0 {
@@ -220,6 +244,7 @@ func runC04(w *fw.Worker) {
 				pt.Func{Name: "f", Ret: T, Body: []pt.Stmt{pt.Return{X: val.x}}}})...)
 		}
 	}
+	curT = nil
 	// every binding site makes a variable: loop variables, parameters and variadic parameters have fixed types like declared variables
 	for _, T := range types {
 		use := []pt.Stmt{pt.TypedDecl{Name: "t", T: T}, pt.Assign{Target: pt.V("t"), X: pt.V("b")}, typeofPrint(pt.V("t"))}
